@@ -7,6 +7,7 @@ import (
 	"io"
 	"sort"
 	"strings"
+	"sync"
 	"time"
 
 	"github.com/hack-pad/hackpadfs"
@@ -17,6 +18,7 @@ var ErrInjected = errors.New("verif: injected primitive failure")
 
 // Hooks counts primitive calls and injects a failure.
 type Hooks struct {
+	mu     sync.Mutex
 	Calls  int
 	FailAt int // 1-based index of the primitive call to fail (0 = none)
 	Fired  string
@@ -24,6 +26,8 @@ type Hooks struct {
 }
 
 func (h *Hooks) tick(what string) error {
+	h.mu.Lock()
+	defer h.mu.Unlock()
 	h.Calls++
 	h.Log = append(h.Log, what)
 	if h.FailAt > 0 && h.Calls == h.FailAt {
@@ -33,7 +37,11 @@ func (h *Hooks) tick(what string) error {
 	return nil
 }
 
-func (h *Hooks) note(what string) { h.Log = append(h.Log, what) }
+func (h *Hooks) note(what string) {
+	h.mu.Lock()
+	h.Log = append(h.Log, what)
+	h.mu.Unlock()
+}
 
 type core struct {
 	inner hackpadfs.FS
